@@ -12,6 +12,8 @@ L5 (parse side): `fromCst` for the container fragment — a transliteration, bug
   * `expressions/parenthesis.py` `Parenthesis.from_cst`
   * `expressions/function/call.py` `FunctionCall.from_cst` (with `collect_comments_between_with_gap`,
                                  `_collect_comment_trivia` of `trivia.py`)
+  * `expressions/with_statement.py` `WithStatement.from_cst`, `expressions/assertion.py` `Assertion.from_cst`
+                                 (with `split_inline_comments`, `append_gap_trivia`)
 
 `Expr` has one constructor per Python class with the fields the fragment uses (`Binding` is an
 expression with `before`/`after` exactly as in Python). Everything the Python reads from node
@@ -50,6 +52,12 @@ inductive Expr where
       `AttributeSet(recursive=True)`, and for those `rebuild` writes no extra `rec`. `argument_gap` is
       a `Text`: `from_cst` always sets it (the `None` branch of `rebuild` is for calls built by hand). -/
   | app (name arg : Expr) (argGap : Text) (fnAfter : List Comment) (before after : List Trivia)
+  /-- `WithStatement(environment, body, after_with_comments, after_with_gap, after_semicolon_comments)` -/
+  | wth (env body : Expr) (awc : List Trivia) (awGap : Text) (asc : List Comment) (before after : List Trivia)
+  /-- `Assertion(expression, body, after_assert_comments, before_semicolon_comments)`. `between` is not
+      a field: `rebuild` renders the body as a copy with `before = between + body.before`, and nothing
+      else reads it; the model writes that into the body where `from_cst` computes it (`asrtFromCst`). -/
+  | asrt (cond body : Expr) (aac bsc : List Trivia) (before after : List Trivia)
 
 /-- `NixSourceCode(expressions, trailing)` -/
 structure Src where
@@ -63,6 +71,8 @@ def Expr.before : Expr → List Trivia
   | .binding _ _ _ b _ => b
   | .paren _ _ _ _ _ b _ => b
   | .app _ _ _ _ b _ => b
+  | .wth _ _ _ _ _ b _ => b
+  | .asrt _ _ _ _ b _ => b
 
 def Expr.after : Expr → List Trivia
   | .leaf _ _ _ a => a
@@ -71,6 +81,8 @@ def Expr.after : Expr → List Trivia
   | .binding _ _ _ _ a => a
   | .paren _ _ _ _ _ _ a => a
   | .app _ _ _ _ _ a => a
+  | .wth _ _ _ _ _ _ a => a
+  | .asrt _ _ _ _ _ a => a
 
 def Expr.setBefore : Expr → List Trivia → Expr
   | .leaf k t _ a, b => .leaf k t b a
@@ -79,6 +91,8 @@ def Expr.setBefore : Expr → List Trivia → Expr
   | .binding n v g _ a, b => .binding n v g b a
   | .paren v lg tg lb tb _ a, b => .paren v lg tg lb tb b a
   | .app n x g fa _ a, b => .app n x g fa b a
+  | .wth e bd c g s _ a, b => .wth e bd c g s b a
+  | .asrt c bd x y _ a, b => .asrt c bd x y b a
 
 def Expr.setAfter : Expr → List Trivia → Expr
   | .leaf k t b _, a => .leaf k t b a
@@ -87,6 +101,8 @@ def Expr.setAfter : Expr → List Trivia → Expr
   | .binding n v g b _, a => .binding n v g b a
   | .paren v lg tg lb tb b _, a => .paren v lg tg lb tb b a
   | .app n x g fa b _, a => .app n x g fa b a
+  | .wth e bd c g s b _, a => .wth e bd c g s b a
+  | .asrt c bd x y b _, a => .asrt c bd x y b a
 
 /-- `expr.after.extend(ts)` -/
 def Expr.addAfter (e : Expr) (ts : List Trivia) : Expr := e.setAfter (e.after ++ ts)
@@ -259,6 +275,59 @@ def appFromCst (fe ae : Expr) (cs : GC) (g : Text) : Expr :=
   let bf := if (Layout.fromGap argGap).onNewline then trimLeadingLayoutTrivia bf else bf
   .app fe (ae.setBefore bf) argGap (sp.inl.map fun t => mkComment t true) [] []
 
+/-- `_collect_comment_trivia(parent, selected, start=…, end=…, allow_inline=True, include_linebreak=True,
+    inline_requires_gap=False, include_empty_line=True)`: each comment with the source text between the
+    previous selected node (or `start`) and it; a comment that starts on the row the previous node ends
+    on is `inline`; `tail` is the text between the last comment and `end` -/
+def collectGo (acc : List Trivia) : GC → List Trivia
+  | [] => acc
+  | p :: rest => collectGo (appendGapTriviaOff acc p.1 ++ [.comment (mkComment p.2 (!containsNL p.1))]) rest
+
+def collectTrivia (cs : GC) (tail : Text) : List Trivia :=
+  let body := collectGo [] cs
+  if !cs.isEmpty && gapHasEmptyLineOffsets tail then body ++ [.emptyLine] else body
+
+/-- the comments between the head expression and the body of `with … ; …`, both sides of `;`, as
+    `_select_comment_nodes_between(comments, environment_node, body_node)` returns them, each with the
+    source text in front of it (the text of the first comment after `;` contains the `;`), and the
+    text after the last of them -/
+def semiSeq (c2 : GC) (g2 : Text) (c3 : GC) (g3 : Text) : GC × Text :=
+  match c3 with
+  | [] => (c2, g2 ++ ';' :: g3)
+  | p :: r => (c2 ++ (g2 ++ ';' :: p.1, p.2) :: r, g3)
+
+/-- `split_inline_comments(items)`: (remaining, inline comments) -/
+def splitInline : List Trivia → List Trivia × List Comment
+  | [] => ([], [])
+  | .comment c :: rest =>
+    let r := splitInline rest
+    if c.inline then (r.1, c :: r.2) else (.comment c :: r.1, r.2)
+  | t :: rest => let r := splitInline rest; (t :: r.1, r.2)
+
+/-- `WithStatement.from_cst(node)` given the parsed environment and body -/
+def withFromCst (env body : Expr) (c1 : GC) (g1 : Text) (c2 : GC) (g2 : Text) (c3 : GC) (g3 : Text) : Expr :=
+  let awc := collectTrivia c1 g1                      -- after_with_comments; after_with_gap = g1
+  let sq := semiSeq c2 g2 c3 g3
+  let between := collectTrivia sq.1 sq.2              -- trailing_gap = sq.2
+  let between := if between.isEmpty then appendGapTrivia [] sq.2 else between
+  let sp := splitInline between
+  let body := if sp.1.isEmpty then body else body.setBefore (sp.1 ++ body.before)
+  .wth env body awc g1 sp.2 [] []
+
+/-- `Assertion.from_cst(node)` given the parsed condition and body. DEVIATION (kept explicit):
+    `between` is written into `body.before` here (see `Expr.asrt`). -/
+def asrtFromCst (cond body : Expr) (c1 : GC) (g1 : Text) (c2 : GC) (g2 : Text) (c3 : GC) (g3 : Text) : Expr :=
+  let aac0 := collectTrivia c1 g1
+  let aac :=
+    if aac0.isEmpty then appendGapTrivia [] g1
+    else if containsNL g1 && !gapHasEmptyLine g1 then aac0 ++ [.linebreak] else aac0
+  let bsc := collectTrivia c2 g2
+  let between0 := collectTrivia c3 g3
+  let between1 := if between0.isEmpty && gapHasEmptyLine g3 then [.emptyLine] else between0
+  let sp : List Trivia × List Comment := if between1.isEmpty then (between1, []) else splitInline between1
+  let body := if sp.1.isEmpty then body else body.setBefore (sp.1 ++ body.before)
+  .asrt cond body aac bsc [] (sp.2.map Trivia.comment)
+
 mutual
 /-- `tree_sitter_node_to_expression(node)` on the fragment -/
 def Cst.parse : Cst → Except Err Expr
@@ -296,6 +365,13 @@ def Cst.parse : Cst → Except Err Expr
       match a.parse with
       | .error e => .error e
       | .ok ae => .ok (appFromCst fe ae cs g)
+  | .kw w c1 g1 h c2 g2 c3 g3 b =>
+    match h.parse with
+    | .error e => .error e
+    | .ok he =>
+      match b.parse with
+      | .error e => .error e
+      | .ok be => .ok (if w then withFromCst he be c1 g1 c2 g2 c3 g3 else asrtFromCst he be c1 g1 c2 g2 c3 g3)
 /-- the loop of `parse_delimited_sequence` -/
 def Items.parseSeq : Items → Mode → SeqSt → Except Err SeqSt
   | .nil, _, st => .ok st
